@@ -223,6 +223,32 @@ class Source:
             e += 1
         raise Undecided("item %s %s has no end" % (kind, name))
 
+    def enum_variants(self, name):
+        start, k, e = self.find_item("enum", name)
+        toks = self.toks
+        b = k
+        while toks[b].text != "{":
+            b += 1
+        out, depth, j, expect = [], 0, b + 1, True
+        while j < e:
+            t = toks[j]
+            if t.kind == "punct":
+                if t.text in "([{<":
+                    depth += 1
+                elif t.text in ")]}>":
+                    depth -= 1
+                elif t.text == "," and depth == 0:
+                    expect = True
+                elif t.text == "#" and depth == 0:
+                    while toks[j].text != "[":
+                        j += 1
+                    j = match_close(toks, j)
+            elif t.kind == "ident" and depth == 0 and expect:
+                out.append(t.text)
+                expect = False
+            j += 1
+        return out
+
     def struct_fields(self, name):
         start, k, e = self.find_item("struct", name)
         toks = self.toks
@@ -730,6 +756,7 @@ def splice(body, u, name):
             marks.append(Mark("\n", "ws", None, None, None))
             inserts.setdefault(j, []).extend(marks)
         elif lab[0] == "proof" and lab[1].startswith("before"):
+            pick_last = lab[1].startswith("before-last")
             anchor = s["label"].split(":", 1)[1].strip()
             want = [t.text for t in lex(anchor) if t.kind not in ("ws", "comment")]
             sigk = [k for k, t in enumerate(body) if t.kind not in ("ws", "comment")]
@@ -737,6 +764,8 @@ def splice(body, u, name):
             for a in range(len(sigk) - len(want) + 1):
                 if all(body[sigk[a + b]].text == want[b] for b in range(len(want))):
                     hits.append(sigk[a])
+            if pick_last and hits:
+                hits = hits[-1:]
             if len(hits) != 1:
                 raise Undecided("anchor lost: proof anchor %r matches %d places in %s" % (anchor, len(hits), name))
             marks = [Mark("proof {\n", "meta", None, None, None)]
